@@ -425,6 +425,12 @@ func registerIntercepts(g *Engine) {
 		e.syncPoint("verifYield")
 		return nil
 	}
+	// verifStepBegin: the harness has finished building its pre-state; the
+	// state-field audit (audit.go) forgets what the set-up code touched.
+	ic["verif:verifStepBegin"] = func(e *Exec, fn *ssa.Function, a []Value) Value {
+		e.fieldUses = nil
+		return nil
+	}
 	ic["verif:verifSettle"] = func(e *Exec, fn *ssa.Function, a []Value) Value { return nil }
 	// verifQuiesce: (explore mode) the calling thread waits until no other
 	// thread can run any more; returns how many other threads have not
